@@ -202,8 +202,13 @@ def rule_own(env, shared):
                 from guards import range_elem
                 re_ = range_elem(off) if off is not None else None
                 def split_point(lo):
-                    # the helper's parameter, or (when the split is written out in Drop / into_seq_iter themselves) the
-                    # position counter — how it may be derived from the counter is decided by OWN.c / SEQ
+                    # the helper's parameter (possibly clamped to LEN by the helper itself), or (when the split is written out
+                    # in Drop / into_seq_iter themselves) the position counter — how it may be derived from the counter is
+                    # decided by OWN.c / SEQ
+                    if lo[0] == "call" and lo[1] == "min" and len(lo[2]) == 2:
+                        for x_, l_ in ((lo[2][0], lo[2][1]), (lo[2][1], lo[2][0])):
+                            if unref(x_)[0] == "param" and m.canon(unref(l_)) == m.canon(r["len_term"]):
+                                return True
                     return lo[0] == "param" or any(x[0] == "atomic" and x[1] == "load" and R.classify(x[2])[0] == "pos"
                                                    for x in subterms(lo))
                 if re_ is not None and m.canon(re_[1]) == m.canon(r["len_term"]) and split_point(re_[0]):
@@ -312,6 +317,28 @@ def rule_own(env, shared):
                             (x[0] == "call" and x[1] in ("saturating_add", "saturating_sub", "wrapping_add", "wrapping_sub"))
                             for x in subterms(a1c))
                 clamped = a1c[0] == "call" and a1c[1] == "min" and Lc in [m.canon(unref(y)) for y in a1c[2]]
+                if not clamped and rsb is not None:
+                    # the clamp may sit in the remainder split itself: every use of its parameter is `min(param, LEN)`
+                    rctx_ = env.ctx(rsb, adt, w)
+                    p2_ = ("param", 2)
+                    terms_ = [ev.local(rctx_, 0)]
+                    for e_ in env.flat_events(rsb, adt, w, own_closures=True):
+                        if e_.kind == "call" and e_.info.get("model") in ("min",):
+                            continue  # (the clamp itself)
+                        terms_.extend(x for x in e_.args if isinstance(x, tuple) and x and isinstance(x[0], str))
+
+                    def strip_(x):
+                        if x[0] == "call" and x[1] == "min" and len(x[2]) == 2:
+                            for y_, l_ in ((x[2][0], x[2][1]), (x[2][1], x[2][0])):
+                                if unref(y_) == p2_ and m.canon(unref(l_)) == Lc:
+                                    return ("const", "clamped-split-index")
+                        if x[0] == "call" and x[1] == "saturating_sub" and len(x[2]) == 2 and unref(x[2][1]) == p2_ \
+                                and m.canon(unref(x[2][0])) == Lc:
+                            return ("const", "clamped-remaining-length")   # LEN - min(param, LEN)
+                        return None
+                    uses_ = [t_ for t_ in terms_ if any(z == p2_ for z in subterms(t_))]
+                    if uses_ and not any(z == p2_ for t_ in uses_ for z in subterms(rewrite(m.canon(t_), strip_))):
+                        clamped = True
                 facts = [tuple(m.canon(x) if isinstance(x, tuple) else x for x in f) for f in block_facts(ev, dctx, bi)]
                 guarded = CProver(facts, ev, dctx).le(ldc, Lc)
                 if len(lds) != 1 or arith or not (a1c == ldc or clamped):
